@@ -3,6 +3,7 @@
 set -e
 cd "$(dirname "$0")"
 mkdir -p .work evidence replays
+python3 tools/gen_tables.py
 (cd lean && lake build)
 (cd harness && CARGO_NET_OFFLINE=true cargo build --offline)
 echo setup-ok
